@@ -64,7 +64,7 @@ func tryReplay(verifDir, prop string, o *Obligation, model string) (string, bool
 	}
 	ok := false
 	for _, l := range strings.Split(out, "\n") {
-		if strings.Contains(l, "REPRODUCED:") {
+		if strings.HasPrefix(strings.TrimSpace(l), "REPRODUCED:") {
 			ok = true
 		}
 	}
